@@ -271,3 +271,34 @@ def valid_payloads(tier, profile="mixed"):
         any_message("small").map(lambda c: bytes.fromhex(c["payload"])),
         unknown_payloads("mixed"),
     )
+
+
+def hashed_message(ident, seed, fixed=None):
+    """payload of a defined identity built WITHOUT Hypothesis draws per field: counters / masks come from `fixed`
+    (attribute name -> raw value, default 0), every other field is a hash of (seed, attribute name).  A pure function
+    of its arguments, so a case stays a few integers however large the message is (Hypothesis caps the entropy of one
+    example at 8 KiB, boundary-sized messages with thousands of fields do not fit)."""
+    import hashlib
+
+    fixed = fixed or {}
+    mid, sub = model.ident_numbers(ident)
+
+    def src(key, width, w, idx):
+        attr = key + "".join(f"_{i:02d}" for i in idx)
+        if attr in fixed:
+            return fixed[attr] & ((1 << width) - 1) if width else 0
+        if key == "DF002" and not idx and w.nbits == 0:
+            return mid
+        if key == "IDF002" and not idx and sub is not None:
+            return sub
+        if width == 0:
+            return 0
+        if w.per_iter > 0 or key in ("DF394", "DF395", "DF396", "IDF035", "IDF037", "IDF038") or key.startswith("DF422_"):
+            return 0
+        h = hashlib.blake2b(f"{seed}|{attr}".encode(), digest_size=16).digest()
+        return int.from_bytes(h, "big") & ((1 << width) - 1)
+
+    w = Walk(ident, src).run()
+    if w.nbits > BUDGET:
+        raise AssertionError(f"hashed_message: {ident} with {fixed} needs {w.nbits} bits")
+    return w.payload(0)
